@@ -81,12 +81,11 @@ func (e *EngineApplier) applyInReadOnlyMode(entry *wal.Entry) error {
 		return e.engine.Delete(entry.Key)
 
 	case wal.OpTypeMerge:
-		// Handle merge as a put operation for compatibility
-		if setter, ok := e.engine.(interface{ SetReadOnly(bool) }); ok {
-			setter.SetReadOnly(false)
-			err := e.engine.Put(entry.Key, entry.Value)
-			setter.SetReadOnly(true)
-			return err
+		// Handle merge as a put operation for compatibility. Like a put it goes through the
+		// internal interface: clearing the read-only flag around a regular Put would let
+		// concurrent client writes through while the flag is down.
+		if putter, ok := e.engine.(interface{ PutInternal(key, value []byte) error }); ok {
+			return putter.PutInternal(entry.Key, entry.Value)
 		}
 		return e.engine.Put(entry.Key, entry.Value)
 
